@@ -762,7 +762,7 @@ class TT():
                     'Second operand must be the same type as the fisrt (both should be either TT matrices or TT tensors).')
             result = TT(cores_new)
 
-        elif isinstance(other, int) or isinstance(other, float) or isinstance(other, complex) or isinstance(other, tn.Tensor):
+        elif isinstance(other, int) or isinstance(other, float) or isinstance(other, complex) or isinstance(other, np.number) or isinstance(other, tn.Tensor):
             if other != 0:
                 cores_new = [c+0 for c in self.cores]
                 cores_new[0] *= other
@@ -914,7 +914,7 @@ class TT():
         Returns:
             torchtt.TT: the result.
         """
-        if isinstance(other, int) or isinstance(other, float) or tn.is_tensor(other):
+        if isinstance(other, int) or isinstance(other, float) or isinstance(other, np.number) or tn.is_tensor(other):
             # divide by a scalar
             cores_new = self.cores.copy()
             cores_new[0] = cores_new[0] / other
